@@ -279,3 +279,60 @@ M("C12", "enc-codec-escaper-sliced", F, ENC_HEAD, "    if isinstance(value, byte
 # the same kind with the repr escaper: an un-escape of backslash + letter splits an escaped backslash followed by that letter
 M("C12", "enc-repr-tab-unescaped", F, SQREP, SQREP + "        value = value.replace(\"\\\\t\", \"\\t\")\n", "C12.R1")
 M("C12", "enc-repr-hex-prefix-rewritten", F, ESCAPER, "        value = repr(b'\"' + value)[3:-1].replace(\"\\\\x\", \"%\")\n", "C12.R1")
+
+# ---------------------------------------------------------------------------------------------- wave 4
+# hex escapes converted through a table / digit string of the module: the table is folded and compared completely with the
+# reference table of hex spellings (both cases unless the digits are case-normalised first); a complete, correct table IS
+# int(<pair>, 16), a table without the upper/mixed-case spellings makes a valid escape raise / decode to the default
+HEXD = "\"0123456789abcdefABCDEF\""
+
+
+def hex_via(table_src, convert, branch=X_BRANCH):
+    """the digit pair of \\xHH converted by `convert` (an expression over `hexstr`), with a module-level table"""
+    return [(F, "def string_token_to_bytes(", table_src + "\n\n\ndef string_token_to_bytes("),
+            (F, branch, branch.replace("                    buffer.append(int(hexstr, 16))\n", convert))]
+
+
+T("C12", "twin-dec-hex-table-both-cases", F, "", "", edits=hex_via(
+    "_HEXD = " + HEXD + "\n_HEX_PAIRS = {a + b: int(a + b, 16) for a in _HEXD for b in _HEXD}",
+    "                    try:\n                        buffer.append(_HEX_PAIRS[hexstr])\n                    except KeyError:\n                        raise ValueError(\"bad hex digits\") from None\n"))
+T("C12", "twin-dec-hex-table-lower-normalised", F, "", "", edits=hex_via(
+    "_HEX_PAIRS = {f\"{v:02x}\": v for v in range(256)}",
+    "                    buffer.append(_HEX_PAIRS[hexstr.lower()])\n", U_BRANCH))
+T("C12", "twin-dec-hex-nibbles", F, X_BRANCH, X_BRANCH.replace("int(hexstr, 16)", "int(hexstr[0], 16) * 16 + int(hexstr[1], 16)"))
+T("C12", "twin-dec-hex-nibbles-shift-or", F, U_BRANCH, U_BRANCH.replace("int(hexstr, 16)", "(int(hexstr[0], 16) << 4) | int(hexstr[1], 16)"))
+T("C12", "twin-dec-hex-digit-string-index", F, "", "", edits=hex_via(
+    "_DIGITS = \"0123456789abcdef\"", "                    hexstr = hexstr.lower()\n                    buffer.append(_DIGITS.index(hexstr[0]) * 16 + _DIGITS.index(hexstr[1]))\n"))
+T("C12", "twin-dec-hex-int-try-valueerror", F, X_BRANCH, X_BRANCH.replace(
+    "                    buffer.append(int(hexstr, 16))\n",
+    "                    try:\n                        buffer.append(int(hexstr, 16))\n                    except ValueError:\n                        raise ValueError(f\"bad hex digits {hexstr!r}\") from None\n"))
+M("C12", "dec-hex-table-upper-only-get", F, "", "", "C12.R2", edits=hex_via(
+    "_HEX_PAIRS = {\"%02X\" % v: v for v in range(256)}",
+    "                    byte = _HEX_PAIRS.get(hexstr)\n                    if byte is None:\n                        raise ValueError(\"bad hex digits\")\n                    buffer.append(byte)\n"))
+M("C12", "dec-hex-table-lower-only-default-zero", F, "", "", "C12.R2", edits=hex_via(
+    "_HEX_PAIRS = dict((format(v, \"02x\"), v) for v in range(256))", "                    buffer.append(_HEX_PAIRS.get(hexstr, 0))\n", U_BRANCH))
+M("C12", "dec-hex-lowercase-set-guard", F, "", "", "C12.R2", edits=hex_via(
+    "_VALID_PAIRS = frozenset(f\"{v:02x}\" for v in range(256))",
+    "                    if hexstr not in _VALID_PAIRS:\n                        raise ValueError(\"bad hex digits\")\n                    buffer.append(int(hexstr, 16))\n"))
+M("C12", "dec-hex-digit-string-index-lowercase", F, "", "", "C12.R2", edits=hex_via(
+    "_DIGITS = \"0123456789abcdef\"", "                    buffer.append(_DIGITS.index(hexstr[0]) * 16 + _DIGITS.index(hexstr[1]))\n"))
+M("C12", "dec-hex-table-swapped-nibbles", F, "", "", "C12.R2", edits=hex_via(
+    "_HEXD = " + HEXD + "\n_HEX_PAIRS = {a + b: int(b + a, 16) for a in _HEXD for b in _HEXD}", "                    buffer.append(_HEX_PAIRS[hexstr])\n"))
+M("C12", "dec-hex-nibbles-wrong-weight", F, X_BRANCH, X_BRANCH.replace("int(hexstr, 16)", "int(hexstr[0], 16) * 16 + int(hexstr[0], 16)"), "C12.R2")
+
+# R5: the decoding loop is the only decoder.  Whole-text str.replace passes over the literal's text (before the loop or as a
+# "fast path" decoder of their own) are judged by lemma L8 against the token structure of a literal; a return that bypasses
+# the loop needs a path condition that excludes every escape
+ITER = "        it = StringIterator(bstring)\n"
+FAST = "        bstring = token.value[1:-1]\n"
+T("C12", "twin-dec-fast-path-no-backslash", F, FAST, FAST + "        if \"\\\\\" not in bstring:\n            return bytes(ord(ch) & 0xFF for ch in bstring)\n")
+T("C12", "twin-dec-prepass-unescape-double-quote", F, ITER, "        it = StringIterator(bstring.replace('\\\\\"', '\"'))\n")
+T("C12", "twin-dec-empty-literal-early", F, FAST, FAST + "        if not bstring:\n            return b\"\"\n")
+M("C12", "dec-prepass-unescape-single-quote", F, ITER, "        it = StringIterator(bstring.replace(\"\\\\'\", \"'\"))\n", "C12.R5")
+M("C12", "dec-prepass-unescape-backslash", F, FAST, "        bstring = token.value[1:-1].replace(\"\\\\\\\\\", \"\\\\\")\n", "C12.R5")
+M("C12", "dec-fast-path-replace-backslash-first", F, "", "", "C12.R5", edits=[
+    (F, "def string_token_to_bytes(", "_PAIRS = {\"\\\\\\\\\": \"\\\\\", \"\\\\t\": \"\\t\", \"\\\\n\": \"\\n\", \"\\\\r\": \"\\r\"}\n\n\ndef string_token_to_bytes("),
+    (F, FAST, FAST + "        if \"\\\\x\" not in bstring and \"\\\\u\" not in bstring and '\\\\\"' not in bstring and \"\\\\'\" not in bstring:\n"
+              "            text = bstring\n            for pair, char in _PAIRS.items():\n                text = text.replace(pair, char)\n            return text.encode(\"latin-1\")\n")])
+M("C12", "dec-fast-path-raw-when-no-hex", F, FAST, FAST + "        if \"\\\\x\" not in bstring and \"\\\\u\" not in bstring:\n            return bstring.encode(\"latin-1\")\n", "C12.R5")
+M("C12", "dec-tab-unescaped-inline", F, ITER, "        it = StringIterator(bstring.replace(\"\\\\t\", \"\\t\").replace(\"\\\\n\", \"\\n\"))\n", "C12.R5")
